@@ -419,8 +419,6 @@ def build(recipe) -> Built:
                 if "not invertible" not in str(e):
                     raise
                 new = None  # documented by CircuitOperation: negative repetitions of a non-invertible circuit
-            except TypeError:
-                new = None  # TaggedOperation.__pow__ of a non-invertible sub-operation (python's unsupported-operand error)
             if new is None:
                 b.skipped.append("inv:none")
                 continue
@@ -449,11 +447,6 @@ def build(recipe) -> Built:
                 if "not invertible" not in str(e):
                     raise
                 b.skipped.append("pow:not_invertible")
-                continue
-            except TypeError:
-                # documented: CircuitOperation.repeat raises TypeError for non-integer repetitions; python raises
-                # TypeError when a TaggedOperation's sub-operation answers NotImplemented
-                b.skipped.append("pow:typeerror")
                 continue
             if new is None:
                 b.skipped.append("pow:none")
@@ -531,9 +524,6 @@ def build(recipe) -> Built:
                 except ValueError as e:
                     if "not invertible" not in str(e):
                         raise
-                    invertible = False
-                except TypeError:
-                    # TaggedOperation.__pow__ lets python's "unsupported operand" TypeError escape cirq.inverse(default)
                     invertible = False
                 if not invertible:
                     b.skipped.append("circ:not_invertible")
